@@ -308,13 +308,19 @@ def sched_families(tier, seed, rng, prop, n_random_q, n_random_t, n_tlc_q, n_tlc
     return fams
 
 
-def impl_design(tier):
+def impl_design(tier, full=False):
     quick = tier == "quick"
-    d = [design_check("MCDBImpl", "MCDBImpl_none.cfg")]
+    # ..GC..: with the graveyard collector as an actor (lock-free scan, then a write transaction over any subset
+    # of the registered tables)
+    d = [design_check("MCDBImpl", "MCDBImpl_none.cfg"), design_check("MCDBImpl", "MCDBImplGC_none.cfg")]
     if not quick:
         d.append(design_check("MCDBImpl", "MCDBImplB_none.cfg"))
         d.append(design_check("MCDBImpl", "MCDBImplLive.cfg"))
         d.append(design_check("MCDBImpl", "MCDBImplLiveB.cfg"))
+        d.append(design_check("MCDBImpl", "MCDBImplGCLive.cfg"))
+        if full:
+            # collector + registrar + two writers: 6 M states, about 5 minutes
+            d.append(design_check("MCDBImpl", "MCDBImplGCReg_none.cfg", timeout=3000))
     return d
 
 
@@ -326,7 +332,7 @@ IMPL_MUTANTS = [("MCDBImpl_unlockBeforeStore.cfg", "Inv_C05_Serial"), ("MCDBImpl
 def _sched_prop(prop, rule):
     def fn(tier, seed, rng):
         quick = tier == "quick"
-        design = [design_check("MCDB", "MCDBQuick.cfg" if quick else "MCDB.cfg")] + impl_design(tier)
+        design = [design_check("MCDB", "MCDBQuick.cfg" if quick else "MCDB.cfg")] + impl_design(tier, full=(prop == "C10"))
         if not quick:
             design += [dict(mutant_check("MCDBImpl", c, e), states=0, transitions=0) for c, e in IMPL_MUTANTS]
         fams = sched_families(tier, seed, rng, prop, 150, 3000, 250, 6000)
